@@ -177,6 +177,17 @@ Definition config_cmd (cmd : pstr) (args : list pstr) : option pstr :=
         end
     | _ => Some bad
     end
+  else if pstr_eqb cmd (s2p "alert") then
+    match args with
+    | [a; b; c] =>
+        match tok_N a, tok_N b, tok_N c with
+        | Some a, Some b, Some c =>
+            let r := alert_model (negb (N.eqb a 0)) (negb (N.eqb b 0)) (negb (N.eqb c 0)) in
+            Some (sp [out_bool (fst r); out_bool (snd r)])
+        | _, _, _ => Some bad
+        end
+    | _ => Some bad
+    end
   else if pstr_eqb cmd (s2p "facts") then
     Some (sp [out_bool examples_documented;
               out_N (N.of_nat (List.length classes));
